@@ -227,8 +227,33 @@ def run(repo, rep):
     hs = [s_ for s_ in ast.walk(ps) if isinstance(s_, ast.Assign) and norm(s_.targets[0]) == "height"]
     rep.check(len(hs) == 1 and norm(hs[0].value) == "stripe.height + (stripe.height % 2 if force_even_stripe_heights else upscaling_remainder)", "C10-e", SITE_E,
               "forced-even height = stripe.height rounded up to even", norm(hs[0].value) if hs else "")
-    rep.floor("C10-e", 3)
+    # minimal schedule: the stripe being chosen is the loop's own op's OFM stripe; whether it must be even is a property of
+    # that op's IFM resampling (its OFM rows are produced in pairs), not of its neighbour
+    pm = sch.func("Scheduler.propose_minimal_schedule")
+    SITE_M = "ethosu/vela/scheduler.py:Scheduler.propose_minimal_schedule"
+    mloops = [l for l in ast.walk(pm) if isinstance(l, ast.For)]
+    if len(mloops) != 1:
+        raise AnalysisError("propose_minimal_schedule: loop over the scheduler ops not found")
+    ml = mloops[0]
+    tg = ml.target.elts[-1] if isinstance(ml.target, ast.Tuple) else ml.target
+    tgt = str(norm(tg))
+    near = [c_ for c_ in ast.walk(ml) if isinstance(c_, ast.Call) and call_name(c_) == "is_nearest"]
+    stripes = [c_ for c_ in ast.walk(ml) if isinstance(c_, ast.Call) and call_name(c_).endswith(".with_height")]
+    if not near or len(stripes) != 1:
+        raise AnalysisError("propose_minimal_schedule: is_nearest test / stripe construction not found")
+    rep.check(str(norm(stripes[0].func)).startswith(f"{tgt}.ofm.shape."), "C10-e", SITE_M, f"the minimal stripe is a slice of `{tgt}`'s own OFM", str(norm(stripes[0]))[:90])
+    for c_ in near:
+        rep.check(len(c_.args) == 1 and str(norm(c_.args[0])) == f"{tgt}.resampling_mode", "C10-e", SITE_M, f"even stripe heights are forced by `{tgt}`'s own nearest-neighbour resampling",
+                  f"tests `{str(norm(c_))}`: the op whose IFM is upscaled 2x nearest-neighbour produces OFM rows in pairs; an odd stripe height on it splits a pair across two stripes")
+    rep.floor("C10-e", 5)
 
+    # producer / consumer roles at call sites of the cascade / scheduler code (rolling buffer between two cascaded ops:
+    # producer's OFM stripe + consumer's IFM stripe)
+    from .shared import operand_stem_lint
+    n_pc = operand_stem_lint(repo, rep, "C10-g", ["cascade_builder", "scheduler"], sides={"producer": {"producer", "prev", "previous"}, "consumer": {"consumer", "next"}},
+                             what="producer and consumer are exchanged at this call; a rolling buffer is sized from the producer's OFM stripe and the consumer's IFM stripe")
+    if n_pc < 2:
+        raise AnalysisError(f"producer/consumer call-site roles: only {n_pc} sites compared")
     # ---------------------------------------------------------------- g: which operators may be striped in a cascade, rolling buffer storage
     from .shared import require_conjuncts
 
